@@ -5,7 +5,8 @@ import os
 from vlib import confirm_by_replay, finish, selftest_corrupt
 
 ASSUME = [
-    "the view is what the walk of the same FS reports (C09 binds that to the disk) plus the bytes its Open yields",
+    "the view is what the walk of the same FS reports (C09 binds that to the disk); the bytes a member must carry are read from the materialised tree on disk, not through the view's own Open",
+    "views assembled by SubDirFS over mount names that are string prefixes of one another (a, ab, a-b; the state space of spec/MountRouteMC.tla) are part of the fixed cases",
     "archive/tar is the trusted reader for parsed members (must reach EOF cleanly); a strict 512-byte block walk written in the harness (trusting every size field) must see the same member names and end in two zero blocks",
     "mtime 'to the second': the archive may hold floor or floor+1 (archive/tar rounds to the nearest second)",
     "extraction: GNU tar 1.34 -xp --xattrs --same-owner --numeric-owner as root on ext4, snapshot compared with the view (directory mtimes excluded, they change during extraction)",
@@ -59,8 +60,18 @@ def _extract_bytes(evs):
     return None
 
 
+def _mc(run):
+    """algorithm layer: SubDirFS (mount names that are string prefixes of one another): Walk / Open agreement, link names"""
+    from vlib import Inconclusive
+    run.tlc_mc("MountRouteMC", "MountRouteMC.cfg", label="alg/SubDirFS: every reported file opens to exactly that file, hidden paths stay hidden, link names closed (all mount sets over a, ab, a-b, b x inner trees over x, b/x, -b/x)")
+    r = run.tlc_mc("MountRouteMC", "MountRouteMC_byPrefix.cfg", label="sanity: routing Open by string prefix of the mount name (seeded variant) must be rejected", expect_error=True)
+    if "Invariant OpenRoundTrip is violated" not in r["out"]:
+        raise Inconclusive("MountRouteMC sanity configuration was not rejected: the model is vacuous")
+
+
 def check(run):
     run.build()
+    _mc(run)
     trace, st = run.drive("tar")
     tr = run.tlc_trace("WalkTrace", trace)
     tr["failed"] = [f for f in tr["failed"] if any(c.startswith("C17.") for c in f["clauses"])]
